@@ -366,6 +366,29 @@ def register_c12(op):
             fgot = [[str(x) for x in fobj.sequence], list(fobj.structure)] if fobj is not None else None
             out.append([back is c, [list(r[0]), list(r[1])] == want, got == want, fobj is c and fgot == want])
             del viafile, fobj
+            if t == 0:
+                # the name Y denotes c: another complex over the same domains (two different unpaired tokens swapped) read under
+                # that name is refused, never resolved to c
+                toks = c.kernel_string.split()
+                plain = [i for i, x in enumerate(toks) if x not in ("+", ")") and not x.endswith("(")]
+                swap = next(((i, j) for i in plain for j in plain if i < j and toks[i] != toks[j]), None)
+                if swap:
+                    i, j = swap
+                    toks[i], toks[j] = toks[j], toks[i]
+                    text = "Y = " + " ".join(toks)
+                    [l2] = parse_pil_string(text + "\n")
+                    s2, t2 = objectio.resolve_kernel_loops(l2[2])
+                    import os as _os, sys as _sys
+                    _sys.path.insert(0, _os.path.dirname(_os.path.dirname(_os.path.abspath(__file__))))
+                    import gen_pil as _gp
+                    if _gp.canon(list(s2), list(t2)) != _gp.canon(want[0], want[1]):
+                        try:
+                            other = objectio.read_pil_line(text)
+                            ok_ = other is not c
+                        except SingletonError:
+                            ok_ = True
+                        out.append([ok_, True, True, True])
+                        other = None
         try:
             os.remove(path)
         except OSError:
